@@ -405,8 +405,8 @@ class Interp:
                 newmid = [Seg(sp.expand(hi - lo), lambda j, v=v: Opaque("part-of", value=v, j=j))]
             base_ref.set(Vec(pre.segs + newmid + post.segs))
             return
-        if isinstance(b, Bytes) and isinstance(idx, Opaque) and idx.what == "rangefull":
-            base_ref.set(v)
+        if isinstance(b, Bytes) and (isinstance(idx, Opaque) and idx.what == "rangefull" or isinstance(idx, Struct) and idx.path == "Range"):
+            base_ref.set(v if isinstance(v, Bytes) else Bytes([("written", v)]))
             return
         if not (isinstance(b, Vec) and isinstance(idx, IntV)):
             raise Unanalysable(f"indexed write {idx!r} into {b!r}")
@@ -465,6 +465,14 @@ class Interp:
             if dk.startswith(("Fn", "AssocFn")):
                 return Opaque("fn", path=r.get("resolved") or r["path"])
             if dk.startswith(("Const", "AssocConst")):
+                bits = {"std::num::<impl usize>::BITS": 64, "std::num::<impl u64>::BITS": 64, "std::num::<impl u32>::BITS": 32}
+                if r["path"] in bits:
+                    return IntV(bits[r["path"]])
+                if r.get("local") and r["path"] in self.F.fns and self.F.fns[r["path"]]["dk"].startswith(("Const", "AssocConst")):
+                    try:
+                        return self.deref(self.ev_raw(self.F.fns[r["path"]]["body"], {}))
+                    except Unanalysable:
+                        pass
                 return Opaque("const", path=r["path"])
             if r["path"].endswith("RangeFull"):
                 return Opaque("rangefull")
@@ -758,6 +766,14 @@ class Interp:
         if e.get("expn", "").startswith(("Bang:assert", "Bang:debug_assert")):
             self.trace.add("assert", e.get("expn"), FX.short(e.get("sp")), self.fn_stack[-1] if self.fn_stack else "")
             return UNIT
+        if e["c"]["k"] == "LetExpr":
+            # `if let PAT = init { t } else { f }`  ==  match init { PAT => t, _ => f }
+            scrut = self.ev(e["c"]["init"], env)
+            fake = {"k": "Match", "src": "Normal", "sp": e.get("sp"), "spx": e.get("spx"), "arms": [
+                {"pat": e["c"]["pat"], "guard": None, "body": e["t"]},
+                {"pat": {"k": "Wild"}, "guard": None, "body": e["f"] if e.get("f") else {"k": "Tup", "es": [], "ty": "()", "sp": e.get("sp")}},
+            ]}
+            return self.match_val(scrut, fake, env)
         c = self.as_cond(self.ev(e["c"], env))
         if isinstance(c, bool):
             slog(self, "if-const", e, True, str(c))
@@ -925,6 +941,9 @@ class Interp:
                     self.bind_match(arm["pat"], scrut, env)
                     return self.ev_raw(arm["body"], env)
             raise Unanalysable(f"no arm matches {scrut!r}")
+        if isinstance(scrut, Opaque) and scrut.what == "result":
+            c = Cond("is_ok", text=repr(scrut))
+            scrut = Ite(c, Enum("Result", "Ok", [scrut.info.get("ok", UNIT)]), Enum("Result", "Err", [scrut.info.get("err", Opaque("error-value"))]))
         if isinstance(scrut, Ite):
             # evaluate the match under both alternatives
             return self.ite_branch(scrut.cond, lambda: self.match_val(scrut.a, e, env), lambda: self.match_val(scrut.b, e, env), env, e)
